@@ -17,11 +17,9 @@ def engine_a():
 
 def main():
     engine_a()
-    try:
-        from mc import selftest_b
-        selftest_b.main()
-    except ImportError:
-        pass
+    from mc import selftest_b, conform
+    selftest_b.main()
+    print("stand-in conformance ok: %d operation sequences" % conform.main())
     print("selftest ok")
 
 
